@@ -37,6 +37,10 @@ def main():
         entry='set_sim_join', measure='JACCARD', nl=1, nr=1, k=4, kernel='contract', comp_ops=['>='], props=P)),
         bounds=dict(rows='1x1', k=4, threshold='symbolic, kernel under K'))
     if not quick:
+        from harness import h_verify
+        ck.e2('verify-step', h_verify.make(dict(measures=['JACCARD', 'COSINE', 'DICE', 'OVERLAP_COEFFICIENT'],
+                                                N=48, comp_ops=['>=', '>', '='], props=P)),
+              bounds=dict(sizes='n,m <= 48', threshold='every double in [1e-4, 1]'), chunk_paths=1, split=2)
         for measure in ('JACCARD', 'COSINE', 'DICE'):
             ck.e2('core-%s-2x2' % measure, h_core.make(dict(
                 entry='set_sim_join', measure=measure, nl=2, nr=2, k=2, thresholds=thr,
